@@ -39,6 +39,12 @@ CHECKS = {
     "C20": ("E2", "bounded-exhaustive metamorphic exploration: every program x every layout-only rewriting with at most 2 deviations compared with the canonical layout (no reference semantics)",
             "Every program up to 2 (thorough 3) statements over a token-boundary alphabet (literals in all radixes incl. as bits width and loop bound, multi-character operators, identifiers that start like keywords) and two malformed variants of each x every set of <= 2 deviations: blank space (spaces, tab, CR, form feed) in or removed from each gap, indentation, trailing space, appended comments, inserted blank/comment lines, CRLF, final newline, every other radix spelling of each literal. Verdict, static rows, dynamic rows and the vectors handed to the driver must be equal; line shifts by the lines inserted above.",
             "Which token pairs may be written without a gap is decided by the reference lexer.", "6/C20"),
+    "C16": ("E2", "bounded-exhaustive enumeration of circuit descriptions (pin sequences x test sequences) rendered as .dig XML against the generating description, plus every single corruption of base documents",
+            "Every sequence of up to 3 (thorough 4) pins from a 14-pin menu (inputs with widths/defaults/high-Z, clock, outputs, duplicate and missing labels, non-numeric width, labels spelled like attribute keys, real <name>_out pins) x every sequence of up to 2 tests from a 15-test menu (duplicate, missing and empty labels, headers with _out columns of every kind, XML-special characters, CRLF, empty and unparsable sources). File::parse must return; a loadable document must yield exactly the described signals and the tests verbatim in order; load_test(i) must equal parse+bind; by-name selects the first match; out-of-range/unknown are errors. Every truncation, line deletion/duplication, tag rename, attribute emptying, bracket drop (and single-character deletion for small documents) of 7 base documents must not panic.",
+            "Signal order is not specified by the property and is compared as a multiset; File::open is not explored.", "6/C16"),
+    "C17": ("E2", "bounded-exhaustive enumeration of programs with random/resetRandom in every position x bounds x seeds; the hook's draw log is replayed through the reference interpreter",
+            "Every program up to 3 (thorough 4) statements over an alphabet placing random() in row entries, bits, let, loop/repeat bounds, while conditions, declarations, ite branches and dead operands with resetRandom anywhere, for 7 bounds (2 .. 2^62 and a device-computed one) and 11 seeds. From the draw log: every draw in range; the reference interpreter fed the logged values reproduces every row and consumes the log exactly with equal bounds and reset positions (one draw per evaluation, none in unselected ite branches, behaviour equals the literal program); after every resetRandom the stream replays; same seed gives the same run.",
+            "Observation through hooks H1/H2; bounds and seeds are boundary sets (DESIGN section 10).", "6/C17"),
     "C18": ("E2", "bounded-exhaustive enumeration of all programs up to K statements; vars() compared with the reference environment after every row",
             "Same program space as C01 (plus X and C rows); after every yielded row vars() must equal the reference interpreter's flattened frame stack at the moment the row was evaluated.",
             "Trusts the reference interpreter; values after an error item or the end are not specified and only required not to panic.", "6/C18"),
